@@ -86,6 +86,17 @@ fn service_chain_files() -> (Vec<(String, String)>, usize) {
     (files, n + 1)
 }
 
+/// Two included files with the same stem in different directories, both declaring the names the
+/// main file refers to through that stem: which one is meant must not depend on a hash order.
+fn same_stem_files() -> Vec<(String, String)> {
+    vec![
+        ("main.thrift".to_string(), "namespace rs stem.main\ninclude \"x/common.thrift\"\ninclude \"y/common.thrift\"\ninclude \"z/common.thrift\"\nstruct Holder { 1: common.Foo foo, 2: list<common.Bar> bars, 3: optional common.Kind kind }\nservice Stem { common.Foo get(1: common.Bar b) }\n".to_string()),
+        ("x/common.thrift".to_string(), "namespace rs stem.xc\nstruct Foo { 1: i32 x }\nstruct Bar { 1: string x }\nenum Kind { X = 1 }\n".to_string()),
+        ("y/common.thrift".to_string(), "namespace rs stem.yc\nstruct Foo { 1: i64 y, 2: optional string why }\nstruct Bar { 1: binary y }\nenum Kind { Y = 2 }\n".to_string()),
+        ("z/common.thrift".to_string(), "namespace rs stem.zc\nstruct Foo { 1: double z }\nstruct Bar { 1: list<i32> z }\nenum Kind { Z = 3 }\n".to_string()),
+    ]
+}
+
 /// Map literals that repeat a key, as constants, defaults, nested values and list elements: what is
 /// emitted for them must not depend on the iteration order of an unordered map.
 fn repeated_key_text() -> String {
@@ -185,6 +196,11 @@ fn files_of(c: &Case) -> (bool, Vec<(String, String)>, usize) {
             return (false, f, n);
         }
         Some(4) => return (false, vec![("dupmap.thrift".to_string(), repeated_key_text())], 1),
+        Some(5) => return (false, same_stem_files(), 1),
+        Some(6) => {
+            let (f, n) = service_chain_files();
+            return (false, f, n);
+        }
         Some(_) => return (false, vec![("cycles.thrift".to_string(), cycle_groups_text())], 1),
         None => {}
     }
@@ -232,7 +248,7 @@ fn hash_tree(root: &Path) -> BTreeMap<String, u64> {
 }
 
 /// One builder run in a fresh process; returns the hashes of everything it wrote.
-fn build_once(c: &Case, mode: Mode, slot: &str, threads: usize) -> Result<BTreeMap<String, u64>, String> {
+fn build_once(c: &Case, mode: Mode, slot: &str, threads: usize, rerun: bool) -> Result<BTreeMap<String, u64>, String> {
     let (is_proto, files, nmain) = files_of(c);
     let dir = work_dir().join("c17").join(slot);
     let _ = std::fs::remove_dir_all(&dir);
@@ -282,6 +298,13 @@ fn build_once(c: &Case, mode: Mode, slot: &str, threads: usize) -> Result<BTreeM
     if !b.ok {
         return Err(format!("builder failed ({}): {}", b.status, vcore::evidence::truncate(&b.stderr, 400)));
     }
+    if rerun {
+        // a second run into the directory the first one filled (the workspace manifest is read back)
+        let b = run_vbuild(&args, Some(threads), 120);
+        if !b.ok {
+            return Err(format!("builder failed on the second run into the same directory ({}): {}", b.status, vcore::evidence::truncate(&b.stderr, 400)));
+        }
+    }
     let h = hash_tree(&out_root);
     let _ = std::fs::remove_dir_all(&dir);
     Ok(h)
@@ -292,7 +315,7 @@ pub fn check_case(c: &Case, slot: &str, runs: &[usize]) -> Result<usize, Fail> {
     let mut reference: Option<(usize, BTreeMap<String, u64>)> = None;
     let mut n = 0;
     for (i, threads) in runs.iter().enumerate() {
-        let h = match build_once(c, c.mode, &format!("{}-{}", slot, i), *threads) {
+        let h = match build_once(c, c.mode, &format!("{}-{}", slot, i), *threads, c.special == Some(6) && i % 2 == 1) {
             Ok(h) => h,
             // a build failure is C14's subject, not a determinism violation
             Err(_) => return Ok(n),
@@ -372,7 +395,7 @@ pub fn run(ctx: &Ctx) -> i32 {
     for (n, m) in crowds {
         cases.push(Case { raw: None, kitchen: None, mode: *m, proto: None, pkitchen: None, crowded: Some(*n), special: None });
     }
-    for (sp, m) in [(0u8, Mode::Single), (0, Mode::Split), (1, Mode::Single), (1, Mode::Split), (2, Mode::Single), (2, Mode::Split), (3, Mode::Workspace), (4, Mode::Single), (4, Mode::Split)] {
+    for (sp, m) in [(0u8, Mode::Single), (0, Mode::Split), (1, Mode::Single), (1, Mode::Split), (2, Mode::Single), (2, Mode::Split), (3, Mode::Workspace), (4, Mode::Single), (4, Mode::Split), (5, Mode::Single), (5, Mode::Split), (6, Mode::Workspace)] {
         cases.push(Case { raw: None, kitchen: None, mode: m, proto: None, pkitchen: None, crowded: None, special: Some(sp) });
     }
     let runs: Vec<usize> = if ctx.tier == vcore::evidence::Tier::Quick { vec![1, 16, 2, 8, 3, 4, 16, 1] } else { (0..48).map(|i| [1, 16, 2, 8, 3, 4, 5, 7][i % 8]).collect() };
